@@ -309,3 +309,44 @@ Example C06_nonvacuous_memo :
   = snd (srun_ref (stub_hspec exCn) (mkP [4; 64; 64; 64; 64; 64] 350 2)
             [SReadH; SSetT 400; SReadH; SSetT 350; SReadOther; SReadH]).
 Proof. vm_compute. reflexivity. Qed.
+
+(* ---------- the package's heats of formation follow the chemicals ---------- *)
+(* `chemical.Hf = v` changes the chemical only (the arrays keep their values until refreshed) ... *)
+Theorem C06_edit_keeps_arrays : forall ob s i v,
+  arrA (pstep ob s (PSetHf i v)) = arrA s /\ arrB (pstep ob s (PSetHf i v)) = arrB s.
+Proof. exact pstep_edit_keeps_arrays. Qed.
+Print Assumptions C06_edit_keeps_arrays.
+
+(* ... and for ANY history of edits and refreshes: once refresh_constants() has run on a package and no
+   chemical is edited afterwards, the array that Reaction.dH (package A) / Stream.Hf (the stream's package)
+   read IS the chemicals' heats of formation, so C06_dH_mol etc. speak about the chemicals' current values *)
+Theorem C06_refresh_propagates_A : forall ob s pre post,
+  forallb (fun o => negb (is_edit o)) post = true -> syncedA (prun ob s (pre ++ PRefreshA :: post)).
+Proof. exact refresh_propagates_A. Qed.
+Print Assumptions C06_refresh_propagates_A.
+
+Theorem C06_refresh_propagates_B : forall ob s pre post,
+  forallb (fun o => negb (is_edit o)) post = true -> syncedB ob (prun ob s (pre ++ PRefreshB :: post)).
+Proof. exact refresh_propagates_B. Qed.
+Print Assumptions C06_refresh_propagates_B.
+
+Theorem C06_compiled_synced : forall ob hf, syncedA (compiled ob hf) /\ syncedB ob (compiled ob hf).
+Proof. exact compiled_synced. Qed.
+Print Assumptions C06_compiled_synced.
+
+(* ---------- equation-of-state arguments of the mixture ---------- *)
+(* for ANY interleaving of enthalpy evaluations and temperature solves (returning or raising), starting
+   with no arguments loaded: none are loaded afterwards, the dictionary was empty after every operation,
+   and every enthalpy read outside a solve is the one of the state asked for (never a stale one) *)
+Theorem C06_mix_args_cleared : forall fresh stale ops m, margs m = None ->
+  margs (fst (fst (mrun fresh stale m ops))) = None /\
+  snd (fst (mrun fresh stale m ops)) = reads_ref fresh ops /\
+  Forall (fun b => b = true) (snd (mrun fresh stale m ops)).
+Proof. exact mix_args_cleared. Qed.
+Print Assumptions C06_mix_args_cleared.
+
+Example C06_nonvacuous_refresh :
+  let s := prun [1; 0]%nat (compiled [1; 0]%nat [-1024; 256]) [PSetHf 1 (-4096); PRefreshA; PRefreshB] in
+  arrA s = [-1024; -4096] /\ arrB s = [-4096; -1024] /\
+  arrA (prun [1; 0]%nat (compiled [1; 0]%nat [-1024; 256]) [PSetHf 1 (-4096)]) = [-1024; 256].
+Proof. repeat split; reflexivity. Qed.
